@@ -136,6 +136,13 @@ func (r *Recorder) ev(n string, s *interpreter.State) {
 		if len(s.Scripts) < 2 {
 			r.flag(fmt.Sprintf("%s: State has %d scripts (the execution has at least two)", n, len(s.Scripts)))
 		}
+		// every snapshot locates itself inside the scripts it carries (State.Opcode() indexes them)
+		if s.ScriptIdx < 0 || (s.ScriptIdx >= len(s.Scripts) && n != "AC" && n != "OK" && n != "ER" && n != "AE" && n != "AS") {
+			r.flag(fmt.Sprintf("%s: State is at script %d but carries %d scripts", n, s.ScriptIdx, len(s.Scripts)))
+		} else if (n == "BO" || n == "AO" || n == "bp" || n == "ap" || n == "bq" || n == "aq") && r.inOpOrBO(n) &&
+			(s.ScriptIdx >= len(s.Scripts) || s.OpcodeIdx < 0 || s.OpcodeIdx >= len(s.Scripts[s.ScriptIdx])) {
+			r.flag(fmt.Sprintf("%s: State is at %d:%d but script %d has %d opcodes in the snapshot", n, s.ScriptIdx, s.OpcodeIdx, s.ScriptIdx, scriptLen(s)))
+		}
 		switch n {
 		case "BO":
 			r.inOp, r.opS, r.opIdx = true, s.ScriptIdx, s.OpcodeIdx
@@ -150,6 +157,13 @@ func (r *Recorder) ev(n string, s *interpreter.State) {
 	if r.Scribble && s != nil {
 		scribble(s)
 	}
+}
+func (r *Recorder) inOpOrBO(n string) bool { return n == "BO" || r.inOp }
+func scriptLen(s *interpreter.State) int {
+	if s.ScriptIdx >= 0 && s.ScriptIdx < len(s.Scripts) {
+		return len(s.Scripts[s.ScriptIdx])
+	}
+	return -1
 }
 func scribble(s *interpreter.State) {
 	for _, st := range [][][]byte{s.DataStack, s.AltStack, s.ElseStack, s.SavedFirstStack} {
